@@ -186,7 +186,7 @@ func returnedStrings(fn *ssa.Function) []string {
 func c20(c *core.Check) {
 	p := c.Prog
 	c.Explain = "Structural necessary conditions of serialize/re-tokenize round-tripping: the separator table contains every pair of adjacent token kinds that would fuse with this tokenizer (CSS Syntax 3 §9 table, each row confirmed); its vocabulary is what Kind.String() and literal tokens can produce, so no row is silently dead; every ParseError kind the tokenizer can put in a token list is serialisable; the string, url and name escapers cover the characters CSS Syntax §4.3 requires. Also decided: an escaped leading digit ends with a space, the character after a leading dash goes through the identifier-start escaping, exponent-like units are escaped with the letter's own code, and the fusing pairs of literal tokens computed from the tokenizer's vocabulary are in the table. Numeric representation of values built in code is not decided."
-	r1 := c.Rule("R1", "parser.badPairs (its init loops evaluated as a cross product of literals, no execution) contains every fusing pair of the §9 table", 60)
+	r1 := c.Rule("R1", "parser.badPairs (its init loops evaluated as a cross product of literals, no execution) contains every fusing pair of the §9 table", 67)
 	bp, err := evalBadPairs(p)
 	if err != nil {
 		r1.Unknown("parser.badPairs", "-", err.Error())
@@ -303,7 +303,7 @@ func c20(c *core.Check) {
 		r1.Cond(okLookup, "serializeTo consults badPairs", p.Pos(st.Pos()), "lookup present", "serializeTo no longer consults badPairs")
 	}
 
-	r2 := c.Rule("R2", "every component of a badPairs key is a value of Kind.String() or a punctuation literal: a misspelt kind name silently disables a row", 30)
+	r2 := c.Rule("R2", "every component of a badPairs key is a value of Kind.String() or a punctuation literal: a misspelt kind name silently disables a row", 32)
 	ks := p.Method("css/parser", "Kind", "String")
 	if ks == nil {
 		r2.Anchor("css/parser.Kind.String")
@@ -443,7 +443,7 @@ func c20(c *core.Check) {
 	}
 
 	c20EscapeTerminator(c)
-	r4 := c.Rule("R4", "serializeStringValue escapes \", \\, LF, CR, FF; serializeURL additionally ', space, TAB, ( and ); serializeName passes through only [A-Za-z0-9_-] and non-ASCII", 3)
+	r4 := c.Rule("R4", "serializeStringValue escapes \", \\, LF, CR, FF; serializeURL additionally ', space, TAB, ( and ); serializeName passes through only [A-Za-z0-9_-] and non-ASCII", 6)
 	// an escaped leading digit (or control character) of an identifier is a hexadecimal escape: it must end with a space
 	if si := p.Fn("css/parser", "serializeIdentifier"); si == nil {
 		r4.Anchor("css/parser.serializeIdentifier")
